@@ -15,7 +15,7 @@ CHECKS = {
 
 CHECKS['C12'] = dict(
     technique='translation validation of the real optimiser: abstract stack machine over recorded compiler streams + exhaustive compiler-shaped window enumeration through peephole_optimize',
-    text='Every window up to the length bound over the alphabet the rules mention, including 16-bit operands that alias a small one modulo 256 (restricted to adjacent pairs the real compiler emits), and drop/load runs of up to 600 instructions, is run through the real peephole_optimize and the output is checked for event/stack/variable equivalence from the entry and from every label plus line provenance; every pre/post stream pair recorded from real compiles of the corpus is checked the same way. Exhaustive for the enumerated window space, sampling for whole programs.',
+    text='Every window up to the length bound over the alphabet the rules mention, including 16-bit operands that alias a small one modulo 256 (restricted to adjacent pairs the real compiler emits), and drop/load runs of up to 600 instructions, is run through the real peephole_optimize and the output is checked for event/stack/variable equivalence from the entry and from every label plus line provenance; every pre/post stream pair recorded from real compiles of the corpus is checked the same way. The enumeration is streamed with a window budget (quick 2*10^6, thorough 2*10^8: full alphabet to length 5, base alphabet to length 6). The abstract machine follows unconditional forward jumps inside a sequence (a jump only transfers control), so a rule that deletes a jump to the next location is accepted. Exhaustive for the enumerated window space, sampling for whole programs.',
     note='Trusts the abstract machine semantics in lib/absmach.py (written from ops.rs); windows containing adjacencies the compiler never emits are outside the quantifier and not enumerated.',
     ref='DESIGN.md §2 C12')
 
@@ -53,7 +53,7 @@ CHECKS['C04'] = dict(
 _SELF_NOTE = 'Self-differential: no reference model involved; assumes a crash-free baseline run of the same program (programs whose baseline crashes are owned by C16). Reaches only the allocation sites / call sites the corpus exercises; evidence lists collections, frees and cache events observed.'
 CHECKS['C05'] = dict(
     technique='GC-schedule self-differential (hook-driven collection schedules vs collection disabled) with poisoning quarantine allocator, intern-table invariant hook and ASan underneath',
-    text='Every corpus program is run with collection disabled and under many collection schedules chosen through a hook (every allocation with stock/forced-full/alternating sweeps, every k-th, Bernoulli, single-point and multi-point schedules swept over the program allocation count, nursery-only on release, LIFO address reuse); outcome, stdout and error line must be identical. Freed blocks are poisoned and quarantined (write-after-free detected at eviction), the intern-table invariant is checked inside every collection, ASan and the NaN-boxed build join in the thorough tier.',
+    text='Every corpus program is run with collection disabled and under many collection schedules chosen through a hook (every allocation with stock/forced-full/alternating sweeps, every k-th, Bernoulli, single-point and multi-point schedules swept over the program allocation count, nursery-only on release, LIFO address reuse); outcome, stdout and error line must be identical. The corpus includes the native probe table (every third probe in the quick tier, all in the thorough tier: each starts a fresh Vm with a minimal stack, so stack growth and collections fall inside natives and their callbacks) and programs whose very first statement makes a native raise. Freed blocks are poisoned and quarantined (write-after-free detected at eviction), the intern-table invariant is checked inside every collection, ASan and the NaN-boxed build join in the thorough tier.',
     note=_SELF_NOTE, ref='DESIGN.md §2 C05')
 CHECKS['C13'] = dict(
     technique='cache on/off self-differential via a cache-disable hook, under dense collection schedules with a LIFO address-reuse allocator',
